@@ -105,6 +105,7 @@ const FAULTS: &[&str] = &[
   "wrong-type:hinted-lambda-body",
   "visibility:private-class-inferred",
   "interface:several-members-missing",
+  "interface:second-instantiation-unsatisfied",
 ];
 
 pub fn fault_kinds() -> &'static [&'static str] {
@@ -331,6 +332,38 @@ pub fn inject(p: &mut ProgramIr, t: &mut Tape, kind_idx: usize) -> Option<Fault>
         iface.members.push(Member { name: format!("{}{i}", ["extra", "more", "also", "other", "aMemberWithAVeryLongName", "yetAnotherRatherLongName"][t.choose(6)]), is_method, is_public: true, tparams: vec![], params: vec![], ret: Ty::Int, body: None });
       }
       return Some(Fault { kind, site: format!("{}+{n}", implementer.1), module: implementer.0 });
+    }
+    "interface:second-instantiation-unsatisfied" => {
+      // a class that implements Cmp<Self> additionally claims Cmp<Str> / Cmp<int> (directly, or through a
+      // new interface that extends it): its only `cmp` cannot have both parameter types
+      let other = if t.bool(1, 2) { Ty::Str } else { Ty::Int };
+      let (ipath, _) = p.modules.iter().find_map(|m| m.classes.iter().find(|c| c.is_interface && c.name == "Cmp").map(|c| (m.path.clone(), c.name.clone())))?;
+      let through = t.bool(1, 2);
+      let first = t.bool(1, 3);
+      let mut done: Option<(Vec<String>, String)> = None;
+      for m in p.modules.iter_mut() {
+        // the intermediate interface is declared next to Cmp; only classes of that module use it (no import needed)
+        if through && m.path != ipath {
+          continue;
+        }
+        let path = m.path.clone();
+        if let Some(c) = m.classes.iter_mut().find(|c| !c.is_interface && c.implements.iter().any(|t| matches!(t, Ty::Class(_, n, _) if n == "Cmp")) && c.members.iter().any(|m| m.name == "cmp")) {
+          let claim = if through { Ty::Class(ipath.clone(), "CmpWithAnotherArgument".into(), vec![]) } else { Ty::Class(ipath.clone(), "Cmp".into(), vec![other.clone()]) };
+          if first {
+            c.implements.insert(0, claim);
+          } else {
+            c.implements.push(claim);
+          }
+          done = Some((path, c.name.clone()));
+          break;
+        }
+      }
+      let (path, cname) = done?;
+      if through {
+        let m = p.modules.iter_mut().find(|m| m.path == ipath)?;
+        m.classes.push(Class { name: "CmpWithAnotherArgument".into(), is_interface: true, private: false, tparams: vec![], typedef: TypeDef::None, implements: vec![Ty::Class(ipath.clone(), "Cmp".into(), vec![other])], members: vec![] });
+      }
+      return Some(Fault { kind, site: format!("{cname}{}{}", if through { "/through-interface" } else { "/direct" }, if first { "/listed-first" } else { "/listed-last" }), module: path });
     }
     "interface:member-missing" | "interface:member-mistyped" => {
       for m in p.modules.iter_mut() {
